@@ -82,7 +82,7 @@ fn host_pattern(host: usize, e: &str) -> String {
 }
 
 fn texts_for(s: &str) -> Vec<String> {
-    let mut v = vec![s.to_string(), format!("xé{}y", s), format!("{}{}", s, s)];
+    let mut v = vec![s.to_string(), format!("xé{}y", s), format!("{}{}", s, s), format!("{}{}{}", s, s, s)];
     // near misses: one character changed / dropped, followed by the real thing
     let chars: Vec<char> = s.chars().collect();
     for i in 0..chars.len() {
@@ -173,8 +173,19 @@ pub fn check_string(s: &str, hosts: &[usize]) -> Result<Info, (usize, String, Fa
                 return Err((h, t.clone(), Fail::new("find", format!("{:?} (str::find)", want), format!("{} with pattern {:?}", got.show(), pat))));
             }
             // every later occurrence as well (searches that start behind the beginning of the text)
-            if !s.is_empty() && !preceded {
-                let wants: Vec<(usize, usize)> = t.match_indices(s).map(|(i, _)| (i, i + s.len())).collect();
+            if !s.is_empty() {
+                let wants: Vec<(usize, usize)> = if preceded {
+                    // successive occurrences that are directly preceded by an occurrence (which may lie before the search start)
+                    let mut v = vec![];
+                    let mut from = 0;
+                    while let Some(i) = (from..=t.len()).filter(|i| t.is_char_boundary(*i)).find(|&i| t[i..].starts_with(s) && t[..i].ends_with(s)) {
+                        v.push((i, i + s.len()));
+                        from = i + s.len();
+                    }
+                    v
+                } else {
+                    t.match_indices(s).map(|(i, _)| (i, i + s.len())).collect()
+                };
                 let gots = engine::find_iter_spans(&re, t, t.len() + 3);
                 if gots != engine::Out::Val((wants.clone(), None)) {
                     return Err((h, t.clone(), Fail::new("find_iter", format!("{:?} (str::match_indices)", wants), format!("{} with pattern {:?}", gots.show(), pat))));
